@@ -68,10 +68,12 @@ def _run_case_sym(args):
         out["paths"] = res.paths
         out["aborted"] = res.aborted
         out["unsupported"] = res.unsupported
-        vac = []
+        vac, okl = [], []
         for c_ in ctxs:
             vac += getattr(c_, "vacuous", [])
-        out["vacuous"] = sorted(set(vac))
+            okl += getattr(c_, "loop_ok", [])
+        out["vacuous"] = sorted(set(vac) - set(okl))
+        out["late_infeasible_paths"] = len(vac)
         out["budget_hit"] = res.budget_hit
         out["solver_calls"] = res.solver_calls
         out["lemmas"] = lem[0]
@@ -229,7 +231,8 @@ class Report:
                 self.undecided.append("%s: path budget hit" % r["case"])
             for v in r.get("vacuous", []):
                 # a loop body whose path condition became inconsistent: the invariant was not checked on that path
-                self.undecided.append("%s: vacuity guard: %s" % (r["case"], v))
+                self.undecided.append("%s: vacuity guard: no path reaches the end of the body of %s with a consistent path "
+                                      "condition (a contract fact contradicts the code?)" % (r["case"], v))
             if r["paths"] - r["aborted"] <= 0 and not r["unsupported"]:
                 self.crashes.append("%s: vacuous (no completed path)" % r["case"])
             if not r["obligations"] and not r["unsupported"] and not r["crash"]:
